@@ -159,9 +159,12 @@ fn execute(ctx: &mut Ctx, cfg: &Cfg, steps: &[Step], with_prune: bool, check: bo
                 let addr = SocketAddr::new(ip_of(*ip), 9000 + *ip as u16);
                 let nid = node_of(*node);
                 let ip_permitted = before.permit_ips.contains(&addr.ip());
-                let ip_banned = before.ban_ips.contains_key(&addr.ip());
+                // a ban binds until its expiry (the periodic sweep may remove it later, or an
+                // implementation may stop honouring it at once: both satisfy "at least the duration")
+                let live = |e: &Option<Instant>| e.map(|t| t > Instant::now()).unwrap_or(true);
+                let ip_banned = before.ban_ips.get(&addr.ip()).map(live).unwrap_or(false);
                 let node_permitted = before.permit_nodes.contains(&nid);
-                let node_banned = before.ban_nodes.contains_key(&nid);
+                let node_banned = before.ban_nodes.get(&nid).map(live).unwrap_or(false);
                 let ip_stage = f.initial_pass(&addr);
                 let node_stage = if ip_stage { Some(f.final_pass(nid, addr)) } else { None };
                 let after = verif::permit_ban_snapshot();
@@ -200,7 +203,7 @@ fn execute(ctx: &mut Ctx, cfg: &Cfg, steps: &[Step], with_prune: bool, check: bo
                             check_expiry(ctx, cfg, now, *exp, "node");
                         }
                     }
-                    if before.ban_ips.keys().any(|k| !after.ban_ips.contains_key(k)) || before.ban_nodes.keys().any(|k| !after.ban_nodes.contains_key(k)) {
+                    if before.ban_ips.iter().any(|(k, e)| live(e) && !after.ban_ips.contains_key(k)) || before.ban_nodes.iter().any(|(k, e)| live(e) && !after.ban_nodes.contains_key(k)) {
                         ctx.fail("c18.ban-vanished", "a ban entry disappeared while processing a datagram", &[]);
                     }
                     // (a) window bound per stage/key + (e) exceeding a per-IP / per-node quota bans
@@ -212,8 +215,11 @@ fn execute(ctx: &mut Ctx, cfg: &Cfg, steps: &[Step], with_prune: bool, check: bo
                                 ctx.count("ip_quota_exceeded");
                                 if ip_stage {
                                     ctx.fail("c18.ip-window-exceeded", format!("ip{ip}: datagram at {}ms let through beyond burst {} + rate*window (period {}ms)", now / 1_000_000, q.burst, q.period_ms), &[]);
-                                } else if !after.ban_ips.contains_key(&addr.ip()) {
-                                    ctx.fail("c18.ip-quota-no-ban", format!("ip{ip} exceeded its per-IP quota at {}ms but was not banned", now / 1_000_000), &[]);
+                                } else {
+                                    match after.ban_ips.get(&addr.ip()) {
+                                        None => ctx.fail("c18.ip-quota-no-ban", format!("ip{ip} exceeded its per-IP quota at {}ms but was not banned", now / 1_000_000), &[]),
+                                        Some(exp) => check_expiry(ctx, cfg, now, *exp, "ip (after a quota excess)"),
+                                    }
                                 }
                             }
                         }
@@ -232,8 +238,11 @@ fn execute(ctx: &mut Ctx, cfg: &Cfg, steps: &[Step], with_prune: bool, check: bo
                                 ctx.count("node_quota_exceeded");
                                 if node_stage == Some(true) {
                                     ctx.fail("c18.node-window-exceeded", format!("node{node}: datagram at {}ms let through beyond burst {} + rate*window (period {}ms)", now / 1_000_000, q.burst, q.period_ms), &[]);
-                                } else if !after.ban_nodes.contains_key(&nid) {
-                                    ctx.fail("c18.node-quota-no-ban", format!("node{node} exceeded its per-node quota at {}ms but was not banned", now / 1_000_000), &[]);
+                                } else {
+                                    match after.ban_nodes.get(&nid) {
+                                        None => ctx.fail("c18.node-quota-no-ban", format!("node{node} exceeded its per-node quota at {}ms but was not banned", now / 1_000_000), &[]),
+                                        Some(exp) => check_expiry(ctx, cfg, now, *exp, "node (after a quota excess)"),
+                                    }
                                 }
                             }
                         }
